@@ -375,7 +375,7 @@ pub fn run(env: &mut Env) {
     } else {
         env.notes.push("quick: every 61st offset x 64 instants; thorough: every offset".into());
     }
-    env.run_random::<DtOffset>(if t { 5_000_000 } else { 400_000 });
-    env.run_random::<TimeOffset>(if t { 3_000_000 } else { 200_000 });
-    env.run_random::<OffsetCtor>(if t { 3_000_000 } else { 300_000 });
+    env.run_random::<DtOffset>(if t { 5_000_000 } else { 1_500_000 });
+    env.run_random::<TimeOffset>(if t { 3_000_000 } else { 600_000 });
+    env.run_random::<OffsetCtor>(if t { 3_000_000 } else { 1_000_000 });
 }
